@@ -48,4 +48,6 @@ Check (C07_mld_icmp_parse_total : forall sum_ok rx bs, mld_icmp_parse sum_ok rx 
 
 Check (C07_mldrec_accessors_safe : forall bs, mldrec_check_len bs = Ok tt ->
   mldrec_record_type bs <> Panic /\ mldrec_aux_data_len bs <> Panic /\ mldrec_num_srcs_ bs <> Panic /\
-  mldrec_mcast_addr bs <> Panic /\ mldrec_payload_ bs <> Panic /\ mldrec_parse bs <> Panic).
+  mldrec_mcast_addr bs <> Panic /\ mldrec_payload_ bs <> Panic).
+
+Check (C07_mldrec_parse_total : forall bs, mldrec_parse bs <> Panic).
